@@ -159,6 +159,24 @@ def run(ctx):
         ctx.check(not probs, "C20.b", f"matplotlib.{kind}", f"ax.{prim}({', '.join(args).replace('{h}', hp)})", " ; ".join(probs[:3]), fi.where)
     mapf = mp.functions.get("map")
     ctx.saw(mapf)
+    # the two coordinate transforms of a transformed map are functions of the same untransformed pair: along every path, what is
+    # handed to y(...) must not already have gone through x(...) (and vice versa)
+    tprobs, ncalls = [], 0
+    for p_ in function_paths(mapf.node):
+        env = Env()
+        for st_ in p_:
+            if st_[0] == "stmt":
+                for c_ in calls_in(st_[1]):
+                    if isinstance(c_.func, ast.Name) and c_.func.id in ("x", "y") and len(c_.args) == 2:
+                        ncalls += 1
+                        other_ = "y" if c_.func.id == "x" else "x"
+                        for a_ in c_.args:
+                            e_ = env.resolve(a_) if isinstance(a_, ast.Name) else a_
+                            if any(isinstance(n_, ast.Call) and isinstance(n_.func, ast.Name) and n_.func.id in ("x", "y") for n_ in ast.walk(e_)):
+                                tprobs.append(f"`{U(c_)}` receives `{U(e_)[:40]}`, which is already a transformed coordinate")
+            env.step(st_)
+    ctx.check(not tprobs and ncalls >= 2, "C20.b", "matplotlib.map:transform-arguments", "x(...) and y(...) are applied to untransformed coordinates",
+              " ; ".join(sorted(set(tprobs))[:2]) or "transform calls not found", mapf.where)
     tm = U(mapf.node)
     hp = mapf.params()[0]
     facts = {
